@@ -245,13 +245,15 @@ fn mutate(rng: &mut Rng, bytes: &[u8], nt: usize) -> Vec<u8> {
     let mut b = bytes.to_vec();
     let nwords = b.len() / 4;
     let interesting = |rng: &mut Rng, len: usize| -> u32 {
-        match rng.below(12) {
+        match rng.below(15) {
             0 => 0, 1 => 1, 2 => 2, 3 => 0xFFFF_FFFF, 4 => 0xFFFF_FFFC, 5 => 0x8000_0000,
             6 => (len as u32).wrapping_add(rng.below(9) as u32).wrapping_sub(4),
             7 => (rng.below(len as u64 + 8) as u32) & !3,
             8 => rng.below(len as u64 + 8) as u32,
             9 => crate::util::rd32(&rc::tag_wire(rng.range(1, 18))),
             10 => 1024 + rng.below(3) as u32 - 1,
+            11 => ((len / 4) as u32 + rng.below(5) as u32).wrapping_sub(2),       // words in the message +-2
+            12 => ((len / 8) as u32 + rng.below(5) as u32).wrapping_sub(2),       // count whose header just fills the message +-2
             _ => rng.below(40) as u32,
         }
     };
@@ -347,6 +349,23 @@ pub fn record(seed: u64, tier: &str, out_path: &str) {
         }
         writeln!(out, "{}", event_of(&b, "random", None)).unwrap();
         events += 1;
+    }
+    // near misses of every known tag: one byte of the tag word differs (set to 00 / ff, case bit, +1, top bit), as the only tag
+    // of a message and as the second tag after SIG (or before PAD for SIG itself)
+    for r in 1..=18u64 {
+        for i in 0..4usize {
+            for pert in 0..5 {
+                let mut t = rc::tag_wire(r);
+                t[i] = match pert { 0 => 0x00, 1 => 0xff, 2 => t[i] ^ 0x20, 3 => t[i].wrapping_add(1), _ => t[i] ^ 0x80 };
+                if t == rc::tag_wire(r) { continue; }
+                let mut one = vec![1u8, 0, 0, 0]; one.extend_from_slice(&t); one.extend_from_slice(&[1, 2, 3, 4]);
+                writeln!(out, "{}", event_of(&one, "nearmiss", None)).unwrap();
+                let (a, b) = if r == 1 { (t, rc::tag_wire(18)) } else { (rc::tag_wire(1), t) };
+                let mut two = vec![2u8, 0, 0, 0, 4, 0, 0, 0]; two.extend_from_slice(&a); two.extend_from_slice(&b); two.extend_from_slice(&[1, 2, 3, 4, 5, 6, 7, 8]);
+                writeln!(out, "{}", event_of(&two, "nearmiss", None)).unwrap();
+                events += 2;
+            }
+        }
     }
     // boundary lengths
     for len in [0usize, 1, 2, 3, 4, 5, 7, 8, 65_532, 65_536] {
